@@ -27,7 +27,8 @@ from collections.abc import MutableMapping
 from contextlib import contextmanager
 from struct import pack, unpack, unpack_from
 
-from .ebpf import AssembleError, Expression, Opcode, Map, FuncId
+from .ebpf import (
+    AssembleError, Expression, Opcode, Map, Memory, FuncId)
 from .bpf import (
     MapType, UpdateFlags, create_map, delete_elem, get_next_key, lookup_elem,
     lookup_and_delete_elem, update_elem)
@@ -93,8 +94,14 @@ class HashGlobalVarDesc:
             update_elem(fd, pack("B", self.count),
                         pack("q" if self.fmt.islower() else "Q", value))
             return
+        if isinstance(value, Memory) and value.fmt not in ("q", "Q", "x"):
+            # the map value is 8 bytes: pass the address of a widened copy,
+            # not of a narrower variable and whatever lies behind it
+            address = Expression.get_address(value, 3, True, True)
+        else:
+            address = value.get_address(3, True, True)
         with ebpf.save_registers([3]):
-            with value.get_address(3, True, True):
+            with address:
                 with ebpf.save_registers([0, 1, 2, 4, 5]), \
                         ebpf.get_stack(4) as stack:
                     ebpf.r1 = ebpf.get_fd(ebpf.__dict__[self.name].fd)
